@@ -33,6 +33,9 @@ Mirrors, function by function:
   only blocks the marker's own denom (send_restrictions.go:60-67) and the marker module's
   own Withdraw message (marker.go:190).
 * authz `GenericAuthorization` / `CountAuthorization.Accept` (forked SDK x/authz)
+* exchange `CreateAskOrder` / `FillAsks` / `CancelOrder` / `closeSettlement` / `DoTransfer`
+  (x/exchange/keeper/orders.go:634,719, fulfillment.go:138,267, keeper.go:201) with the hold module's
+  `AddHold` / `ReleaseHold` (x/hold/keeper/keeper.go:67-134) and the bank's locked-coins check
 
 Conventions: addresses and scope ids are symbolic strings.  The scope token of scope `i`
 (`MetadataAddress.Denom() = "nft/" + bech32`, x/metadata/types/address.go:863) is the denom
@@ -47,8 +50,9 @@ Scopes may have `require_party_rollup` set and then may list optional parties
 Outside the model (assumed off in the harness app): quarantine opt-ins and sanctions (both
 would be further send restrictions; a transfer to a quarantined receiver parks the token with
 the quarantine module's funds holder until the receiver accepts — and the later `MsgAccept` is a
-further route that moves it), x/exchange orders naming a scope token (settlement moves coins with
-the market as transfer agent), fee grants in use, expiring
+further route that moves it), x/exchange BID orders paying with a scope token and `MarketSettle`
+(ask orders whose assets are a scope token, their hold, `FillAsks` and `CancelOrder` ARE modelled:
+`createAsk` / `fillAsk` / `cancelOrder`), fee grants in use, expiring
 authz grants, scope specifications other than the one the
 harness creates (parties involved = [OWNER] and every party has role OWNER, so
 `validateRolesPresent` always passes, the one required role is fulfilled by any party with a
@@ -110,6 +114,7 @@ inductive Err where
   | novo       -- "no account address associated with metadata address"
   | same       -- "already has the proposed value owner"
   | status     -- marker Withdraw: "… from a marker that is not in Active status"
+  | perm       -- exchange CancelOrder: "does not have permission to cancel order"
   deriving DecidableEq, Repr
 
 def Err.toString : Err → String
@@ -117,7 +122,7 @@ def Err.toString : Err → String
   | .sig => "err:sig" | .roles => "err:roles" | .contract => "err:contract" | .blocked => "err:blocked"
   | .withdraw => "err:withdraw" | .deposit => "err:deposit" | .funds => "err:funds"
   | .notfound => "err:notfound" | .dup => "err:dup" | .novo => "err:novo" | .same => "err:same"
-  | .status => "err:status"
+  | .status => "err:status" | .perm => "err:perm"
 
 /-- an authz grant; `count = 0` is a `GenericAuthorization`, `count = n+1` a
 `CountAuthorization` with `n+1` uses left -/
@@ -165,6 +170,16 @@ structure Scope where
   rollup : Bool := false
   deriving DecidableEq, Repr
 
+/-- an x/exchange ask order (x/exchange/orders.go `AskOrder`) of the one market the harness creates:
+the assets are ONE unit of `asset` (a scope token), the price is `price` units of the ordinary
+coin `priceDenom`; no fees -/
+structure Order where
+  id : Nat
+  seller : Addr
+  asset : Denom
+  price : Nat
+  deriving DecidableEq, Repr
+
 /-- the metadata module account (mints, burns; a blocked address in the app) -/
 def modAddr : Addr := "MOD"
 
@@ -177,6 +192,13 @@ structure State where
   wasm : List Addr := ["K"]
   /-- bank `BlockedAddr`: the module accounts -/
   blocked : List Addr := ["MOD", "FEE"]
+  /-- x/hold: one entry per unit of a denom on hold in an account (`HoldKeeper.AddHold`); the
+  bank's locked-coins function subtracts them from what the account can spend -/
+  holds : List (Addr × Denom) := []
+  /-- x/exchange: the ask orders in the store -/
+  orders : List Order := []
+  /-- x/exchange `lastOrderID` -/
+  lastOrder : Nat := 0
   deriving Repr
 
 /-! ## Scope store -/
@@ -241,10 +263,21 @@ def depositOk (s : State) (agents : List Addr) (frm to : Addr) : Bool :=
 def hasFunds (l : Ledger) (a : Addr) (ids : List ScopeId) : Bool :=
   ids.all fun d => decide (1 ≤ bal l a d)
 
+/-- units of `d` on hold in account `a` (`HoldKeeper.GetHoldCoin`) -/
+def heldOf (s : State) (a : Addr) (d : Denom) : Nat := s.holds.count (a, d)
+
+/-- `subUnlockedCoins` (forked SDK x/bank/keeper/send.go:360): the account can spend one unit of
+each listed denom — its balance minus what is locked (on hold) covers it -/
+def spendable (s : State) (a : Addr) (ids : List Denom) : Bool :=
+  ids.all fun d => decide ((heldOf s a d : Int) + 1 ≤ bal s.ledger a d)
+
 /-- bank `SendCoins` of one unit of each listed scope denom with the marker send
-restriction (no marker exists for a scope denom, so `validateSendDenom` passes) -/
+restriction (no marker exists for a scope denom, so `validateSendDenom` passes).  The forked SDK
+debits the sender first (`subUnlockedCoins`, send.go:313: balance, then balance minus locked
+coins — both "insufficient funds") and applies the send restriction afterwards (send.go:318). -/
 def sendCoins (s : State) (agents : List Addr) (frm to : Addr) (ids : List ScopeId) : Except Err State :=
   if !hasFunds s.ledger frm ids then .error .funds
+  else if !spendable s frm ids then .error .funds
   else if !withdrawOk s agents frm then .error .withdraw
   else if !depositOk s agents frm to then .error .deposit
   else .ok { s with ledger := s.ledger.move frm to (ones ids) }
@@ -662,6 +695,7 @@ def markerWithdraw (s : State) (marker admin to : Addr) (ids : List ScopeId) : E
       else if m.status ≠ .active then .error .status            -- marker.go:190
       else if s.blocked.contains to then .error .blocked
       else if !hasFunds s.ledger marker ids then .error .funds
+      else if !spendable s marker ids then .error .funds      -- locked (held) coins cannot be withdrawn either
       else .ok { s with ledger := s.ledger.move marker to (ones ids) }
 
 /-! ## Other bank routes -/
@@ -684,11 +718,12 @@ def msendLoop (frm : Addr) : State → List (Addr × List ScopeId) → Except Er
 `frm` (the message's signer) and the outputs `outs`, one unit of each listed denom per output:
 `ValidateInputOutputs`, no output may be a blocked address, the input's total is removed first
 (`subUnlockedCoins`: a denom listed in `k` outputs needs `k` units — possible for an ordinary coin,
-"insufficient funds" for a scope token), then every output passes the send restriction. -/
+"insufficient funds" for a scope token; units on hold do not count — holds exist on scope denoms
+only), then every output passes the send restriction. -/
 def bankMultiSend (s : State) (frm : Addr) (outs : List (Addr × List ScopeId)) : Except Err State :=
   if frm = "" || outs.isEmpty || outs.any (fun o => o.1 = "" || o.2.isEmpty || !nodupB o.2) then .error .invalid
   else if outs.any (s.blocked.contains ·.1) then .error .blocked
-  else if !hasFundsTotal s.ledger frm (outs.flatMap (·.2)) then .error .funds
+  else if !hasFundsTotal s.ledger frm (outs.flatMap (·.2)) || !spendable s frm (outs.flatMap (·.2)) then .error .funds
   else msendLoop frm s outs
 
 /-- marker `msgServer.Transfer` → `Keeper.TransferCoin` (x/marker/keeper/marker.go:624) of a scope
@@ -698,6 +733,64 @@ the marker module's own rules apply; they are not part of this model and the op 
 def markerTransfer (_s : State) (admin frm to : Addr) (id : ScopeId) : Except Err State :=
   if admin = "" || frm = "" || to = "" || !isScopeDenom id then .error .invalid
   else .error .notfound
+
+/-! ## x/exchange: an ask order whose assets are a scope token
+
+The harness app has one market (accepting orders, user settlement allowed, no fees, no required
+attributes).  A scope token is a bank coin, so it can be the `assets` of an ask order. -/
+
+/-- the denom prices are quoted in (an ordinary coin) -/
+def priceDenom : Denom := "$c"
+
+def findOrder (s : State) (oid : Nat) : Option Order := s.orders.find? (·.id = oid)
+
+/-- `msgServer.CreateAsk` → `Keeper.CreateAskOrder` (x/exchange/keeper/orders.go:634) signed by the
+seller: the order gets the next id and `placeHoldOnOrder` (orders.go:575) → `HoldKeeper.AddHold`
+puts its assets on hold in the seller's account, which `ValidateNewHold` (x/hold/keeper/keeper.go:67)
+allows only when the seller's SPENDABLE balance covers them: the seller holds the token and it is
+not on hold for another order.  (Orders whose assets are ordinary coins are outside the model.) -/
+def createAsk (s : State) (seller : Addr) (asset : Denom) (price : Nat) : Except Err State :=
+  if seller = "" || price = 0 || !isScopeDenom asset then .error .invalid
+  else if !spendable s seller [asset] then .error .funds
+  else .ok { s with orders := s.orders ++ [⟨s.lastOrder + 1, seller, asset, price⟩]
+                    lastOrder := s.lastOrder + 1
+                    holds := (seller, asset) :: s.holds }
+
+/-- `msgServer.FillAsks` → `Keeper.FillAsks` (x/exchange/keeper/fulfillment.go:138) of ONE ask order,
+signed by the buyer, with `total_price = price priceDenom`: the order must exist, not be the
+buyer's own (`getAskOrders`, orders.go:496) and ask exactly the offered price; `closeSettlement`
+(fulfillment.go:267) then RELEASES THE HOLD and `DoTransfer`s (keeper.go:201, under the quarantine
+bypass, no transfer agents) the assets seller → buyer and the price buyer → seller — each a bank
+`SendCoins` after a `BlockedAddr` test of the receiver — and deletes the order.
+The seller signs nothing here: its consent is the `MsgCreateAsk` that made the order. -/
+def fillAsk (s : State) (buyer : Addr) (oid price : Nat) : Except Err State :=
+  if buyer = "" || oid = 0 || price = 0 then .error .invalid
+  else match findOrder s oid with
+    | none => .error .notfound
+    | some o =>
+      if o.seller = buyer then .error .invalid
+      else if o.price ≠ price then .error .invalid
+      else if s.blocked.contains buyer then .error .blocked
+      else match sendCoins { s with holds := s.holds.erase (o.seller, o.asset) } [] o.seller buyer [o.asset] with
+        | .error e => .error e
+        | .ok s2 =>
+          if s2.blocked.contains o.seller then .error .blocked
+          else if bal s2.ledger buyer priceDenom < (price : Int) then .error .funds   -- holds exist on scope denoms only
+          else if !withdrawOk s2 [] buyer then .error .withdraw
+          else if !depositOk s2 [] buyer o.seller then .error .deposit
+          else .ok { s2 with ledger := s2.ledger.move buyer o.seller [(priceDenom, (price : Int))]
+                             orders := s2.orders.filter (·.id ≠ oid) }
+
+/-- `msgServer.CancelOrder` → `Keeper.CancelOrder` (orders.go:719) signed by `signer`: only the
+order's owner (nobody has the market's cancel permission in the harness app); releases the hold and
+deletes the order -/
+def cancelOrder (s : State) (signer : Addr) (oid : Nat) : Except Err State :=
+  if signer = "" || oid = 0 then .error .invalid
+  else match findOrder s oid with
+    | none => .error .notfound
+    | some o =>
+      if signer ≠ o.seller then .error .perm
+      else .ok { s with holds := s.holds.erase (o.seller, o.asset), orders := s.orders.filter (·.id ≠ oid) }
 
 /-! ## Environment operations (not part of the property's messages) -/
 
@@ -745,6 +838,9 @@ inductive Op where
   | revoke (granter grantee : Addr) (mt : MsgType)
   | access (marker addr : Addr) (perms : List Access)
   | mstatus (marker : Addr) (st : MStatus)
+  | ask (seller : Addr) (asset : Denom) (price : Nat)
+  | fill (buyer : Addr) (oid price : Nat)
+  | cancel (signer : Addr) (oid : Nat)
   deriving Repr
 
 def exec (s : State) : Op → Except Err State
@@ -761,6 +857,9 @@ def exec (s : State) : Op → Except Err State
   | .revoke granter grantee mt => deleteGrant s granter grantee mt
   | .access marker addr perms => setAccess s marker addr perms
   | .mstatus marker st => setStatus s marker st
+  | .ask seller asset price => createAsk s seller asset price
+  | .fill buyer oid price => fillAsk s buyer oid price
+  | .cancel signer oid => cancelOrder s signer oid
 
 /-- one transaction: a rejected message leaves the state unchanged -/
 def applyOp (s : State) (op : Op) : State × String :=
